@@ -33,6 +33,7 @@ def run(ctx) -> None:
     ctx.rule("SEQ", "second passes run in dependency order on every path to success", floor=1)
     ctx.rule("PARAM", "constructors/setters of the IR store the same-named parameter; id-sets recomputed from it", floor=100)
     ctx.rule("IFACE", "interfaces exactly for abstract classes and classes with descendants", floor=1)
+    ctx.rule("INHERIT-STORE", "once the inherited with_model_type is determined, every non-error path of the iteration stores it into the class", floor=1)
     ctx.rule("EXH1", "assert_never chains in the IR translation are exhaustive", floor=18)
     m = p.module(TR)
     for f in m.functions.values():
@@ -63,6 +64,7 @@ def run(ctx) -> None:
             param.check_param_flow(ctx, f, "PARAM")
             _check_id_set(ctx, f)
     _check_interfaces(ctx)
+    _check_inherit_store(ctx)
 
 
 def _check_merges(ctx, f) -> None:
@@ -189,3 +191,69 @@ def _check_interfaces(ctx) -> None:
         ctx.ok("IFACE", f, ifs[0], what="Interface iff isinstance(cls, AbstractClass) or len(list_descendants) > 0; otherwise None")
     else:
         ctx.fail("IFACE", f, ifs[0], f"the interface is created under `{short(t)}`, not exactly for abstract classes and classes with at least one descendant", construct="interface condition")
+
+
+def _check_inherit_store(ctx) -> None:
+    """_second_pass_to_stack_serializations_in_place: after the consistent inherited value
+    (``first``) is known, every path of the iteration that does not report an error
+    writes it to ``our_type.serialization``."""
+    from ..flow import artefacts, set_dataflow, loads, stores
+    p = ctx.p
+    f = p.func(f"{TR}:_second_pass_to_stack_serializations_in_place")
+    loops = [n for n in f.node.body if isinstance(n, ast.For)]
+    ctx.require_anchor(len(loops) >= 1 and isinstance(loops[0].target, ast.Name), "the serialization pass loops over the types")
+    loop = loops[0]
+    lv = loop.target.id
+    # stores of a non-constant value into <lv>.serialization[...]
+    st_nodes = []
+    inherited = set()
+    for n in ast.walk(loop):
+        if isinstance(n, ast.Assign) and (dotted_of(n.targets[0]) or "").startswith(f"{lv}.serialization"):
+            names = {x.id for x in ast.walk(n.value) if isinstance(x, ast.Name)} - {"Serialization"}
+            if names:
+                st_nodes.append(n)
+                inherited |= names
+    if not st_nodes or len(inherited) != 1:
+        ctx.fail("INHERIT-STORE", f, loop, "the inherited serialization setting is never stored into the class", construct="inherited with_model_type stored")
+        return
+    var = next(iter(inherited))
+    art = artefacts(ctx.ty, f)
+    cfg = art.cfg
+
+    def transfer(node, st):
+        have, stored, errored, flags = st
+        flags = dict(flags)
+        s_ = node.stmt
+        if node.kind == "stmt" and var in stores(node):
+            have, stored = True, False
+        if node.kind == "stmt" and any(s_ is x for x in st_nodes):
+            stored = True
+        if node.kind == "stmt" and isinstance(s_, ast.Expr) and isinstance(s_.value, ast.Call) and dotted_of(s_.value.func) == "errors.append":
+            errored = True
+        if node.kind == "stmt" and isinstance(s_, ast.Assign) and isinstance(s_.targets[0], ast.Name):
+            if isinstance(s_.value, ast.Constant) and isinstance(s_.value.value, bool):
+                flags[s_.targets[0].id] = s_.value.value
+            else:
+                flags.pop(s_.targets[0].id, None)
+        if node.kind == "for" and node.stmt is loop:
+            return [(False, False, False, frozenset())]
+        return [(have, stored, errored, frozenset(flags.items()))]
+
+    def edge(node, st, label):
+        if node.kind == "test" and isinstance(node.expr, ast.Name) and label in (True, False):
+            known = dict(st[3]).get(node.expr.id)
+            if known is not None and known != label:
+                return None
+        return st
+
+    IN = set_dataflow(cfg, frozenset([(False, False, False, frozenset())]), transfer, edge)
+    head = next(n for n in cfg.nodes if n.kind == "for" and n.stmt is loop)
+    bad = [st for st in IN.get(head.id, frozenset()) if st[0] and not st[1] and not st[2]]
+    what = f"every non-error path stores `{var}.value` into {lv}.serialization"
+    if bad:
+        ctx.fail("INHERIT-STORE", f, st_nodes[0],
+                 f"an iteration can end with the inherited value `{var}` determined but not written to `{lv}.serialization` (and no error reported): "
+                 f"a class whose own setting is unset keeps None and, with it, its whole sub-tree loses the inherited with_model_type",
+                 construct=what)
+    else:
+        ctx.ok("INHERIT-STORE", f, st_nodes[0], what=what)
